@@ -119,8 +119,14 @@ def cases(tier: str, seed: int) -> list[dict]:
     for conv, ny, nx, idt in (("cf2d", 12, 16, "int8"), ("shoc_standard", 9, 15, "int8"), ("cf1d", 14, 11, "int16")):
         w = W.counts_world(conv, ny=ny, nx=nx)
         out.append({"src": "rand", "w": w, "events": _events(w, 2, idt)})
+    # a grid with more cells than a 32-bit integer counts (two 1-D coordinate vectors are all it takes)
+    for ny, nx in ((46341, 46341), (43200, 65000)):
+        out.append({"src": "rand", "w": dict(W.counts_world("cf1d", ny=ny, nx=nx), pin_via="memory"), "events": [{"a": "GridSizeBig"}]})
     vias = ["memory", "file", "memory", "dask", "memory", "emsopen", "memory"]      # how the dataset is held (viafile.hold)
     for k, c in enumerate(out):
+        if c["w"].get("pin_via"):
+            c["w"] = dict(c["w"], via="memory")
+            continue
         if k % 3 == 1:
             c["w"] = dict(c["w"], wind_first=True)      # see execute
         c["w"] = dict(c["w"], via=vias[k % len(vias)])
@@ -164,6 +170,20 @@ def execute(case: dict) -> dict:
                 e["obs"] = {kind_name(k): as_int(v) for k, v in conv.grid_size.items()}
             except Exception:
                 e["obs"] = {k: -1 for k in W.kinds_of(w)}       # (no sizes to be had: reported as sizes of -1)
+        elif a == "GridSizeBig":
+            import numpy
+            import xarray
+
+            def limbs(v):
+                v = int(v)
+                return [v // 65536, v % 65536]
+            try:
+                face_dims = list(W.kind_dims(w, "face"))
+                probe = xarray.DataArray(numpy.zeros((1, 1)), dims=face_dims).isel({d: slice(0, 0) for d in face_dims})
+                sizes = {kind_name(k): v for k, v in conv.grid_size.items()}
+                e["obs"] = {"face": limbs(sizes["face"]), "kindof": limbs(conv.get_grid_kind_and_size(probe)[1])}
+            except Exception:
+                e["obs"] = {"face": [-1, -1], "kindof": [-1, -1]}
         elif a == "Kinds":
             try:
                 e["obs"] = sorted(kind_name(k) for k in conv.grid_kinds)
